@@ -291,13 +291,19 @@ def _load_tup4(stream):
 @register(_load_registry, TAG_TUP_L1)
 def _load_tup_l1(stream):
     l, = I1.unpack(stream.read(1))
-    return tuple(_load(stream) for i in range(l))
+    items = []
+    for i in range(l):  # a plain loop: a generator would cost one more stack frame per nesting level than dumping did
+        items.append(_load(stream))
+    return tuple(items)
 
 
 @register(_load_registry, TAG_TUP_L4)
 def _load_tup_l4(stream):
     l, = I4.unpack(stream.read(4))
-    return tuple(_load(stream) for i in range(l))
+    items = []
+    for i in range(l):
+        items.append(_load(stream))
+    return tuple(items)
 
 
 @register(_load_registry, TAG_SLICE)
